@@ -57,19 +57,95 @@ theorem testOk_map (f : α → β) (ax : Axis) (t : NTest) (c : Item α) :
 /-- the two configurations agree modulo the relabelling -/
 structure Agree (f : α → β) (ca : Cfg α) (cb : Cfg β) : Prop where
   drop : cb.dropRoot = ca.dropRoot
+  dummy : cb.dummy = ca.dummy
   attrs : ∀ a ats, cb.attrsOf (f a) ats = ca.attrsOf a ats
 
 theorem attributes_map {f : α → β} {ca : Cfg α} {cb : Cfg β} (h : Agree f ca cb) (c : Item α) :
     attributes cb (c.map f) = (attributes ca c).map (Item.map f) := by
   cases c <;> simp [Item.map, attributes, h.attrs, Function.comp_def]
 
-theorem axisNodes_map {f : α → β} {ca : Cfg α} {cb : Cfg β} (h : Agree f ca cb) (ax : Axis)
-    (c : Item α) : axisNodes cb ax (c.map f) = (axisNodes ca ax c).map (Item.map f) := by
-  cases ax <;> simp [axisNodes, children_map, descendants_map, attributes_map h]
+theorem hasChildIdx_map {f : α → β} {ca : Cfg α} {cb : Cfg β} (h : Agree f ca cb) (i : Nat) (p : Item α) :
+    hasChildIdx cb i (p.map f) = hasChildIdx ca i p := by
+  unfold hasChildIdx
+  rw [children_map, attributes_map h, ← List.map_append, List.any_map]
+  congr 1
+  funext x
+  simp [idx_map]
 
-theorem stepNodes_map {f : α → β} {ca : Cfg α} {cb : Cfg β} (h : Agree f ca cb) (ax : Axis)
+theorem isDocB_map (f : α → β) (p : Item α) : parentOf.isDocB (p.map f) = parentOf.isDocB p := by
+  cases p <;> rfl
+
+theorem parentOf_map {f : α → β} {ca : Cfg α} {cb : Cfg β} (h : Agree f ca cb) (rt c : Item α) :
+    parentOf cb (rt.map f) (c.map f) = (parentOf ca rt c).map (Item.map f) := by
+  unfold parentOf
+  rw [idx_map]
+  cases c.idx? with
+  | none => rfl
+  | some i =>
+    simp only
+    have hl : (rt.map f :: descendants (rt.map f)) = (rt :: descendants rt).map (Item.map f) := by
+      simp [descendants_map]
+    rw [hl, List.find?_map]
+    have hp : (hasChildIdx cb i ∘ Item.map f) = hasChildIdx ca i := by
+      funext p; exact hasChildIdx_map h i p
+    rw [hp]
+    cases (rt :: descendants rt).find? (hasChildIdx ca i) with
+    | none => rfl
+    | some p =>
+      simp only [Option.map_some, isDocB_map, h.dummy]
+      split <;> rfl
+
+theorem ancestorsOf_map {f : α → β} {ca : Cfg α} {cb : Cfg β} (h : Agree f ca cb) (rt : Item α) :
+    ∀ (n : Nat) (c : Item α),
+      ancestorsOf cb (rt.map f) n (c.map f) = (ancestorsOf ca rt n c).map (Item.map f)
+  | 0, _ => rfl
+  | n + 1, c => by
+    simp only [ancestorsOf, parentOf_map h]
+    cases parentOf ca rt c with
+    | none => rfl
+    | some p => simp [ancestorsOf_map h rt n p]
+
+theorem isAttrItem_map (f : α → β) (c : Item α) : isAttrItem (c.map f) = isAttrItem c := by
+  cases c <;> rfl
+
+theorem idxLt_map (f : α → β) (a b : Item α) : idxLt (a.map f) (b.map f) = idxLt a b := by
+  simp [idxLt, idx_map]
+
+theorem siblings_map {f : α → β} {ca : Cfg α} {cb : Cfg β} (h : Agree f ca cb) (rt c : Item α) :
+    siblings cb (rt.map f) (c.map f) = (siblings ca rt c).map (Item.map f) := by
+  unfold siblings
+  rw [isAttrItem_map, parentOf_map h]
+  split
+  · rfl
+  · cases parentOf ca rt c with
+    | none => rfl
+    | some p => simp [children_map]
+
+theorem axisNodes_map {f : α → β} {ca : Cfg α} {cb : Cfg β} (h : Agree f ca cb) (rt : Item α) (ax : Axis)
+    (c : Item α) : axisNodes cb (rt.map f) ax (c.map f) = (axisNodes ca rt ax c).map (Item.map f) := by
+  cases ax
+  case parent =>
+    simp only [axisNodes, parentOf_map h]
+    cases parentOf ca rt c <;> rfl
+  case ancestor =>
+    simp only [axisNodes, descendants_map, List.length_map, ancestorsOf_map h]
+  case follSibling =>
+    simp only [axisNodes, siblings_map h, List.filter_map]
+    congr 1
+    apply List.filter_congr
+    intro x _
+    simp [idxLt_map]
+  case precSibling =>
+    simp only [axisNodes, siblings_map h, List.filter_map, List.map_reverse]
+    congr 2
+    apply List.filter_congr
+    intro x _
+    simp [idxLt_map]
+  all_goals simp [axisNodes, children_map, descendants_map, attributes_map h]
+
+theorem stepNodes_map {f : α → β} {ca : Cfg α} {cb : Cfg β} (h : Agree f ca cb) (rt : Item α) (ax : Axis)
     (t : NTest) (c : Item α) :
-    stepNodes cb ax t (c.map f) = (stepNodes ca ax t c).map (Item.map f) := by
+    stepNodes cb (rt.map f) ax t (c.map f) = (stepNodes ca rt ax t c).map (Item.map f) := by
   unfold stepNodes
   rw [h.drop, isDoc_map, axisNodes_map h]
   split
@@ -120,10 +196,10 @@ theorem eval_map {f : α → β} {ca : Cfg α} {cb : Cfg β} (h : Agree f ca cb)
     intro c pos size
     have hflat : ((eval ca rt p c pos size).1.map (Item.map f)).flatMap (fun c' =>
           filterPos (fun it i n => (eval cb (rt.map f) q2 it i n).2)
-            (filterPos (fun it i n => (eval cb (rt.map f) q1 it i n).2) (stepNodes cb ax t c'))) =
+            (filterPos (fun it i n => (eval cb (rt.map f) q1 it i n).2) (stepNodes cb (rt.map f) ax t c'))) =
         ((eval ca rt p c pos size).1.flatMap (fun c' =>
           filterPos (fun it i n => (eval ca rt q2 it i n).2)
-            (filterPos (fun it i n => (eval ca rt q1 it i n).2) (stepNodes ca ax t c')))).map (Item.map f) := by
+            (filterPos (fun it i n => (eval ca rt q1 it i n).2) (stepNodes ca rt ax t c')))).map (Item.map f) := by
       rw [List.flatMap_map, List.map_flatMap]
       congr 1
       funext c'
